@@ -26,7 +26,7 @@ ASSUMPTIONS = [
 STEP_KINDS = [
     "set_scalar_kw", "del_scalar_kw", "set_schema_kw", "prop_add", "prop_del", "prop_replace_all",
     "prop_flip_required", "prop_replace_element", "class_kw", "elements_assign", "set_default",
-    "prop_replace_other_source", "prop_dict_api", "prop_source_assign",
+    "prop_replace_other_source", "prop_dict_api", "prop_source_assign", "prop_rekey",
 ]
 REQUIRED_COUNTERS = ["histories", "compare.calls", "compare.accepted", "compare.rejected", "triples", "compare.model_consulted",
                      "target.Object", "target.Element"] + [f"step.{k}" for k in STEP_KINDS]
@@ -166,7 +166,7 @@ def apply_step(rng, spec, root, notpassed):
             choices += ["prop_add", "prop_replace_all"]
             if node.get("kw", {}).get("properties"):
                 choices += ["prop_del", "prop_flip_required", "prop_replace_element",
-                            "prop_replace_other_source", "prop_dict_api", "prop_source_assign"]
+                            "prop_replace_other_source", "prop_dict_api", "prop_source_assign", "prop_rekey"]
         if kind in ("AnyOf", "OneOf", "AllOf", "Not"):
             choices.append("elements_assign")
         if not choices:
@@ -304,6 +304,13 @@ def apply_step(rng, spec, root, notpassed):
                             holder[new_name] = pspec
                             live.properties.setdefault(new_name, prop)
                             prop.bind(name=new_name, parent=live)
+            elif step == "prop_rekey":
+                # the same Property object moved to another attribute name: it keeps the JSON name it had
+                new_name = rng.choice([n for n in gen_dsl.PY_NAMES + ["moved", "moved2"] if n not in holder] or ["moved3"])
+                pspec = holder.pop(name)
+                json_name = pspec["source"] if pspec.get("source") is not None else name
+                holder[new_name] = dict(pspec, source=json_name)
+                live.properties[new_name] = live.properties.pop(name)
             elif step == "prop_source_assign":
                 new_source = rng.choice([name + "_renamed", "SRC", name])
                 holder[name] = dict(holder[name], source=new_source if new_source != name else None)
